@@ -541,12 +541,18 @@ func parseSccExtension(r *bits.EBSPReader) (*SccExtension, error) {
 			for i := uint(0); i < ext.NumPalettePredictorInitializers; i++ {
 				ext.PalettePredictorInitializer[0] =
 					append(ext.PalettePredictorInitializer[0], r.Read(int(ext.LumaBitDepthEntryMinus8+8)))
+				if r.AccError() != nil { // Don't go on after end of data
+					return nil, r.AccError()
+				}
 			}
 			// Fill chroma if any
 			for comp := 1; comp < numComps; comp++ {
 				for i := uint(0); i < ext.NumPalettePredictorInitializers; i++ {
 					ext.PalettePredictorInitializer[comp] =
 						append(ext.PalettePredictorInitializer[comp], r.Read(int(ext.ChromaBitDepthEntryMinus8+8)))
+					if r.AccError() != nil { // Don't go on after end of data
+						return nil, r.AccError()
+					}
 				}
 			}
 		}
